@@ -80,6 +80,9 @@ func genSimCloseCase(r *u.Rng) scCase {
 		c.CliIdle += time.Duration(r.Range(0, 999)) * time.Millisecond
 	}
 	c.CliIdle, c.SrvIdle = max(c.CliIdle, 12*c.RTT), max(c.SrvIdle, 12*c.RTT)
+	if r.Chance(1, 10) {
+		c.CliIdle = rlNoIdleTimeout // the client has no idle timeout of its own (repo 637b35e): the server's value alone counts
+	}
 	ka := func(idle time.Duration) time.Duration {
 		switch r.Intn(4) {
 		case 0:
